@@ -18,7 +18,7 @@
 From Coq Require Import ZArith List Bool Arith.
 From SK Require Import Model.Base Model.Skel Model.Stm Model.SequenceSk
      Model.Store Model.StoreSk Spec.Store Proofs.Store
-     Model.Result Proofs.Result Gen.Params Gen.SkelTree.
+     Model.Result Proofs.Result Gen.Params Gen.SkelTree Gen.XCatalog.
 Import ListNotations.
 Open Scope Z_scope.
 
@@ -34,7 +34,8 @@ Theorem C05_store_result_shape :
 Proof. vm_compute. reflexivity. Qed.
 
 Theorem C05_save_part_shape :
-  calls_only_list tk_save_part = expected_save_part.
+  collapse_list (calls_only_list tk_save_part)
+  = collapse_list expected_save_part.
 Proof. vm_compute. reflexivity. Qed.
 
 Theorem C05_get_store_id_shape :
@@ -43,6 +44,67 @@ Proof. vm_compute. reflexivity. Qed.
 
 Theorem C05_result_get_shape :
   calls_only_list tk_result_get = expected_result_get.
+Proof. vm_compute. reflexivity. Qed.
+
+(* ---- T1, the rest of result.py ---------------------------------------- *)
+(* SearchResult.__init__: every write, raise, return and call in order (reads
+   erased): sequence_id is assigned - None, then the definition's sequence id
+   for a sequence part - BEFORE the store_result_contents early return;
+   store_result comes last *)
+Theorem C05_result_init_shape :
+  no_reads_list tk_result_init = expected_result_init.
+Proof. vm_compute. reflexivity. Qed.
+
+(* ... and walked with the model's conditions (each test reading exactly the
+   attribute it is about): a sequence part without section id raises; else
+   the sequence id is set iff the definition is a sequence part - whether or
+   not contents are stored - and store_result runs iff contents are stored.
+   Model/Result.make_result takes [sq] and [store_contents] independently *)
+Theorem C05_result_init_is_tree : forall is_seq_part section_given store_contents,
+  run_result_init tk_result_init is_seq_part section_given store_contents
+  = Some (init_model is_seq_part section_given store_contents).
+Proof. intros [] [] []; vm_compute; reflexivity. Qed.
+
+(* metadata: ONE results_store.add(self.tag, self.sequence_id, None) on every
+   evaluation, unconditionally - the references are positions in THIS
+   store, nothing is remembered on the definition or anywhere else *)
+Theorem C05_metadata_tree : tk_result_metadata = expected_result_metadata.
+Proof. vm_compute. reflexivity. Qed.
+
+(* export: a SearchResultMinimal of the parts, that metadata, line, source,
+   section and field info *)
+Theorem C05_export_tree : tk_result_export = expected_result_export.
+Proof. vm_compute. reflexivity. Qed.
+
+Theorem C05_result_base_init_tree :
+  tk_result_base_init = expected_result_base_init.
+Proof. vm_compute. reflexivity. Qed.
+
+(* __iter__: one store.get per part, in order (Model.Result.iter) *)
+Theorem C05_iter_tree : tk_result_iter = expected_result_iter.
+Proof. vm_compute. reflexivity. Qed.
+
+Theorem C05_minimal_init_tree : tk_minimal_init = expected_minimal_init.
+Proof. vm_compute. reflexivity. Qed.
+
+(* __getattr__ (Model.Result.getattr): declared field names -> get(name),
+   anything else AttributeError *)
+Theorem C05_getattr_tree :
+  collapse_list (calls_only_list tk_minimal_getattr)
+  = collapse_list (calls_only_list expected_minimal_getattr).
+Proof. vm_compute. reflexivity. Qed.
+
+(* tag / sequence_id (Model.Result.tag_of / seq_of): the metadata slot, one
+   test, then store.get; the test is `idx is None` (statement shape
+   recognised by translator/plugins/catalog.py) *)
+Theorem C05_tag_tree :
+  tk_minimal_tag = expected_minimal_meta /\
+  tk_minimal_sequence_id = expected_minimal_meta /\
+  x_result_meta_none_iff_slot_none = true.
+Proof. vm_compute. repeat split. Qed.
+
+Theorem C05_register_results_store_tree :
+  tk_register_results_store = expected_register_results_store.
 Proof. vm_compute. reflexivity. Qed.
 
 (* in-process search (ResultStoreSimple) *)
@@ -117,5 +179,7 @@ Example C05_example :
 Proof. vm_compute. repeat split. Qed.
 
 Print Assumptions C05_readback_exact_plain.
+Print Assumptions C05_result_init_is_tree.
+Print Assumptions C05_metadata_tree.
 Print Assumptions C05_readback_exact_parallel.
 Print Assumptions C05_more_groups_than_fields_raises.
